@@ -9,4 +9,4 @@ Definition primitive_key : list ksrc := [ KStatic ].
 Definition pointer_key : list ksrc := [ KItem ].
 Definition array_key : list ksrc := [ KPtr; KLen ].
 Definition void_key : list ksrc := [ KStatic ].
-Definition function_key : list ksrc := [ KResult; KFlags; KNargs; KArgsRaw ].
+Definition function_key : list ksrc := [ KResult; KFlags; KNargs; KArgsStored ].
